@@ -34,7 +34,10 @@ RULE_ADDED = (
               'third of the shards under python -O '
               ' '
               'Round 8: image names holding glob / shell / format metacharacters next to a sibl'
-              'ing they would match as patterns. ')
+              'ing they would match as patterns. '
+              ' '
+              'Round 9: tool command lines spelled with long options and -v / --verbose now and'
+              ' then. ')
 RULE = RULE + " " + RULE_ADDED.strip()
 ASSUMPTIONS = [
     "own Intel-HEX writer (pv/gen/ihex.py); areas do not overlap",
